@@ -428,7 +428,10 @@ func addToTsidMap(tagRawValue []byte, tagRawValueType []byte,
 	rawTagValueToTSIDs map[string]map[uint64]struct{}, tsids []uint64) {
 
 	groupIDStr := getGroupIDStr(tagRawValue, tagRawValueType)
-	rawTagValueToTSIDs[groupIDStr] = make(map[uint64]struct{})
+	// a value with more than 65535 TSIDs comes in several blocks
+	if _, ok := rawTagValueToTSIDs[groupIDStr]; !ok {
+		rawTagValueToTSIDs[groupIDStr] = make(map[uint64]struct{})
+	}
 
 	for _, tsid := range tsids {
 		rawTagValueToTSIDs[groupIDStr][tsid] = struct{}{}
@@ -593,10 +596,17 @@ func (ttr *TagTreeReader) getOrInsertMatchingTSIDs(mName uint64, tagValue uint64
 			}
 			matchesThis, mightMatchOtherValue := wmetrics.TagValueMatches(tagHashValue, tagValue,
 				tagOperator)
+			if matchedSomething && !matchesThis && tagOperator == sutils.Equal {
+				// all blocks of the value have been read
+				break
+			}
 			if matchesThis {
 				matchedSomething = true
 				valueAsStr := string(rawTagValue)
-				rawTagValueToTSIDs[valueAsStr] = make(map[uint64]struct{})
+				// a value with more than 65535 TSIDs has several consecutive blocks
+				if _, ok := rawTagValueToTSIDs[valueAsStr]; !ok {
+					rawTagValueToTSIDs[valueAsStr] = make(map[uint64]struct{})
+				}
 
 				for i := uint32(0); i < tsidCount; i++ {
 					tsid := utils.BytesToUint64LittleEndian(tagTreeBuf[treeOffset : treeOffset+8])
@@ -611,7 +621,7 @@ func (ttr *TagTreeReader) getOrInsertMatchingTSIDs(mName uint64, tagValue uint64
 			}
 			if mightMatchOtherValue && !matchesThis {
 				treeOffset += tsidCount * 8
-			} else if !mightMatchOtherValue {
+			} else if !mightMatchOtherValue && !matchesThis {
 				break
 			}
 		}
